@@ -122,6 +122,10 @@ func pkgs(root bool) []layout.Pkg {
 		{Dir: "d", Name: "d", Typeless: true, Tags: tags},
 		{Dir: "e", Name: "e", Typeless: true, Aliases: []string{"EA"}, Tags: tags},
 	}
+	// a package whose directory repeats the module path (a vendored copy of the module itself, say): its source
+	// directory is <root>/third/<module path>/v, the module path occurring twice in its import path
+	ps = append(ps, layout.Pkg{Dir: "third/" + mod + "/v", Name: "v", Types: []string{"V1"}, Aliases: []string{"VA"}, Tags: tags})
+	ps[0].Imports = append(ps[0].Imports, mod+"/third/"+mod+"/v")
 	ps[0].ValueImports = []string{mod + "/d", mod + "/e"}
 	if root {
 		ps[0].Imports = append(ps[0].Imports, mod)
